@@ -10,11 +10,16 @@ def obligations(tier):
                   desc='%s: a signal handler with its own read-side section interrupts the reader thread at any scheduling point (inside rcu_read_lock / '
                        'rcu_read_unlock / the section); reader word and rcu_read_ongoing() restored; both sections get the grace-period guarantee' % fl,
                   wit=['signal handler ran', 'handler interrupted an open read-side section'])
+    if not q:
+        obs += gp('mb_handler_in_updater', 'mb', ['updater', 'reader'], 3, handlers=[1], reg_slots=[1], timeout=4500, mem_gb=20,
+                  desc='mb: the handler interrupts the UPDATER thread (registered as a reader) at any scheduling point of its update, including '
+                       'inside synchronize_rcu (registry lock held, between the two scans, around the futex wait); same oracles',
+                  wit=['signal handler ran'])
     return obs
 
 
 EXPLANATION = 'C19: read-side critical sections inside signal handlers'
-OUTSIDE = 'signals on the updater thread (inside synchronize_rcu / call_rcu), nested signals, bp flavor, real signal delivery; a signal is delivered at most once per run, at a turn boundary of the interrupted thread (every visible instruction boundary can be one)'
+OUTSIDE = 'quick tier: signals on the reader thread only (the thorough tier adds the updater thread, anywhere inside its synchronize_rcu); signals inside call_rcu or on a queued follower, nested signals, bp flavor (encoded, no verdict inside 24 GB), real signal delivery; a signal is delivered at most once per run, at a turn boundary of the interrupted thread (every visible instruction boundary can be one)'
 ASSUMPTIONS = ['signal = frame pushed on the interrupted thread at one of its scheduling points, runs to completion on its slot (same TLS, same store buffer) while other threads interleave']
 LEVEL_TEXT = 'Bounded model checking of the real read-side primitives interrupted by a handler that uses them, against the C01 oracles and reader-word restoration, all interleavings within R rounds.'
 LEVEL_NOTE = 'Trusted: clang-14 lowering, irseq translator, asm table, scheduler/signal model, futex/mutex stubs, CBMC/MiniSat.'
